@@ -1,4 +1,5 @@
 import Hive.Model.Ads
+import Hive.Model.AdsId
 /-!
 # Several authenticated maps / sets in one database (C09)
 
@@ -158,6 +159,11 @@ structure RInst where
   realm : Realm
   mem : KV
   cd : Codec := {}
+  /-- `idfail`: bit 0 — the identifier encoder fails, bit 1 — the identifier decoder fails -/
+  idmode : Nat := 0
+  /-- a constructor whose identifier decoder failed started a new trie over the old records: what lies in the
+  node store is then no longer a function of the last `Commit` (`peek` answers `nodes=?`) -/
+  garbage : Bool := false
 
 structure Sess where
   dbs : List (Nat × DB R0)
@@ -184,6 +190,19 @@ def openAt (ss : Sess) (i d : Nat) (r : Realm) (cd : Codec := {}) : Sess × Stri
   | some db =>
     let (db', mem', _) := stepAt (cfgC cd) layout db r [] .reopen
     ((ss.putDb d db').putInst i { db := d, realm := r, mem := mem', cd := cd }, "ok")
+
+/-- The identifier serializers of the driver: the cell stores the identifier itself; `idfail` makes the encoder /
+the decoder fail.  (The driver's identifiers are the contents as functions — their equality is not executable, the
+driver's `same` answers true; every serializer pair of the harness round-trips, `C09_id_codec_invisible`.) -/
+def idCodecOf (mode : Nat) : IdCodec R0 R0 :=
+  { enc := fun r => if mode % 2 == 1 then none else some r
+    dec := fun b => if mode / 2 % 2 == 1 then none else some b }
+
+/-- One call on the instance with realm `r` through `istep` (root cell, failing identifier serializers). -/
+def stepAtI (c : Cfg R0) (mode : Nat) (db : DB R0) (r : Realm) (mem : KV) (op : Op) : DB R0 × KV × IOut R0 :=
+  let s := load layout db r mem
+  let (st', o) := istep c (idCodecOf mode) (fun _ _ => true) { s := s, cell := s.rootKey, dangling := none } op
+  (store layout db r { st'.s with rootKey := st'.cell }, st'.s.trie.mem, o)
 
 /-- `rmw <i> <key> <byte>` — read-modify-write-back: `v := Get(key)`; the first byte of `v` is replaced;
 `Set(key, v)`.  A failed or empty `Get` ends it with `Get`'s answer (`empty` for the empty value). -/
@@ -215,7 +234,7 @@ def peekLine (ss : Sess) (x : RInst) (args : List String) : String :=
     let raw := match db (layout.raw x.realm) with | .raw ks => ks | _ => []
     let size := match db (layout.size x.realm) with | .size n => toString n | _ => "-"
     let root := match db (layout.root x.realm) with | .root _ => "yes" | _ => "no"
-    let nodes := match db (layout.tree x.realm) with | .tree (_ :: _) => "+" | _ => "0"
+    let nodes := if x.garbage then "?" else match db (layout.tree x.realm) with | .tree (_ :: _) => "+" | _ => "0"
     "peek raw=[" ++ " ".intercalate (raw.map hex) ++ "] size=" ++ size ++ " root=" ++ root ++ " nodes=" ++ nodes
   | none, _ => "nodb"
   | _, _ => "bad-op"
@@ -252,18 +271,29 @@ def stepLine (ss : Sess) (toks : List String) : Sess × String :=
       | some x =>
         if verb == "rmw" then rmwLine ss i x args else
         if verb == "peek" then (ss, peekLine ss x args) else
+        if verb == "idfail" then
+          match args with
+          | ["off"] => (ss.putInst i { x with idmode := 0 }, "ok")
+          | ["enc"] => (ss.putInst i { x with idmode := 1 }, "ok")
+          | ["dec"] => (ss.putInst i { x with idmode := 2 }, "ok")
+          | ["both"] => (ss.putInst i { x with idmode := 3 }, "ok")
+          | _ => (ss, "bad-op")
+        else
         match ss.db x.db, parseOpC x.cd (verb :: args) with
         | none, _ => (ss, "nodb")
         | _, none => (ss, "bad-op")
         | some db, some op =>
-          let (db', mem', o) := stepAt (cfgC x.cd) layout db x.realm x.mem op
-          let ss' := (ss.putDb x.db db').putInst i { x with mem := mem' }
+          let (db', mem', o) := stepAtI (cfgC x.cd) x.idmode db x.realm x.mem op
+          let hadCell := match db (layout.root x.realm) with | .root _ => true | _ => false
+          let garbage := x.garbage || (op == .reopen && x.idmode / 2 % 2 == 1 && hadCell)
+          let ss' := (ss.putDb x.db db').putInst i { x with mem := mem', garbage := garbage }
           match o with
-          | .root _ =>
+          | .errSetRoot => (ss', "err-root")
+          | .out (.root _) =>
             -- roots are compared as equality classes: the first point of the session with these contents
             let pts := ss.points ++ [x.mem]
             ({ ss' with points := pts }, s!"class {classOf x.mem pts}")
-          | _ => (ss', showOutC x.cd o)
+          | .out o => (ss', showOutC x.cd o)
   | _ => (ss, "bad-op")
 
 end Hive.Ads
